@@ -111,7 +111,7 @@ def max_dev(col_a, exact_fn) -> Fr:
 def coherent_case(draw):
     dtype = draw(st.sampled_from(["float32", "float64"]))
     crit = draw(st.sampled_from(CRITS))
-    shape = draw(shape_s())
+    shape = draw(shape_s(large=12))
     form = draw(st.sampled_from(["module", "functional"]))
     dims = [0, 0] + ([1, -1] if len(shape) >= 2 else [])
     dim = draw(st.sampled_from(dims)) if (form == "functional" and crit != "entropic") else 0
